@@ -247,6 +247,30 @@ func cliExit(r *Run) {
 		}
 	}
 
+	// failures that are not damage: a data file that cannot be read at all
+	// (a directory sits in its place), an index path that runs through a
+	// regular file - "every other failure exits with another non-zero status"
+	if t.Bool(1, 8, "unreadable") {
+		fi := t.Draw(len(w.Files), "which-file")
+		real := rw.Real(w.Path(fi))
+		if t.Bool(1, 2, "index-through-file") {
+			bogus := filepath.Join(w.Files[fi].Name, w.Base+ext)
+			for _, cmd := range []string{"verify", "repair"} {
+				res := r.RunPar(setDir, cmd, bogus)
+				check(res, "par "+cmd+" with an index path that runs through a regular file", notIn(0, 3), "not 0 and not 3 (index cannot be read)", "fresh")
+			}
+			r.Probe("index-path-through-a-file")
+		} else if orig, err := os.ReadFile(real); err == nil && os.Remove(real) == nil && os.Mkdir(real, 0755) == nil {
+			for _, cmd := range []string{"verify", "repair"} {
+				res := r.RunPar(setDir, cmd, w.Base+ext)
+				check(res, "par "+cmd+" with a directory in place of a data file", notIn(0, 3), "not 0 and not 3 (a data file cannot be read)", "fresh")
+			}
+			os.Remove(real)
+			os.WriteFile(real, orig, 0644)
+			r.Probe("directory-in-place-of-data-file")
+		}
+	}
+
 	// ---- state ----
 	states := []string{"intact", "repairable", "unrepairable", "no-parity", "damaged-index", "missing-index", "recovery-subset-lost", "damaged-recovery-file"}
 	state := states[t.Pick([]int{2, 5, 3, 2, 1, 1, 3, 1}, "state")]
